@@ -662,8 +662,11 @@ func (a *Account) Save() error {
 
 	// save code
 	if a.codeIsDirty {
-		if err := a.db.SetContractCode(a.data.CodeHash, a.code); err != nil {
-			return err
+		// the code is empty again if the contract creation was reverted. There is nothing to store then, and the store refuses an empty value
+		if len(a.code) > 0 {
+			if err := a.db.SetContractCode(a.data.CodeHash, a.code); err != nil {
+				return err
+			}
 		}
 		a.codeIsDirty = false
 	}
